@@ -74,21 +74,29 @@ C06RoundTripFunded(d, w) ==
 
 (* C06 (b): neither leg lowers the value of one market token for the other LPs.  V / S before vs
    V' / S' after, cross-multiplied; V is the pool value as the leg itself values the pool
-   (deposit: maximised, withdrawal: minimised).  There are other LPs only when S > 0 (deposit) and
-   S' > 0 is not needed for the withdrawal (V' >= 0 must still hold).  Slack: integer rounding. *)
-ShareSlack(S0, S1) == 0
+   (deposit: maximised, withdrawal: minimised).  There are other LPs only when S > 0.
+   "Beyond integer rounding", made exact: minting and paying out round down (in the other LPs'
+   favour, no allowance needed).  The one rounding that can go against them is the pnl factor: a
+   deposit is admitted while floor(Unit * pnl / pool side) <= max factor, so the traders' pnl may
+   exceed the cap floor(pool side * max factor / Unit) by less than pool side / Unit + 1; the
+   deposit raises the cap and up to that excess becomes a liability of the pool.  CapRound is that
+   excess where it exists, bounded by the rounding bound, and zero otherwise. *)
+CapRound(st, c, pr, kind, maximize, isLong) ==
+  LET L   == SideValue(st, pr, isLong, maximize)
+      pnl == Pnl(st, pr.idx, isLong, ~maximize)
+      cap == ApplyFactor(L, KindFactor(c, kind))
+  IN IF cap.ok /\ pnl > cap.v THEN Min(pnl - cap.v, SideValue(st, pr, isLong, FALSE) \div Unit + 1) ELSE 0
 C06DepositShare(e) ==
   (IsDeposit(e) /\ e.ok /\ e.pre.supply > 0) =>
     LET v0 == PoolValue(e.pre, e.c, e.pr, "deposit", TRUE)
         v1 == PoolValue(e.post, e.c, e.pr, "deposit", TRUE)
-    IN (v0.ok /\ v1.ok /\ v0.v >= 0) =>
-         v1.v * e.pre.supply + ShareSlack(e.pre.supply, e.post.supply) >= v0.v * e.post.supply
+        r  == CapRound(e.pre, e.c, e.pr, "deposit", TRUE, TRUE) + CapRound(e.pre, e.c, e.pr, "deposit", TRUE, FALSE)
+    IN (v0.ok /\ v1.ok /\ v0.v >= 0) => (v1.v + r) * e.pre.supply >= v0.v * e.post.supply
 C06WithdrawShare(e) ==
   (IsWithdraw(e) /\ e.ok) =>
     LET v0 == PoolValue(e.pre, e.c, e.pr, "withdrawal", FALSE)
         v1 == PoolValue(e.post, e.c, e.pr, "withdrawal", FALSE)
-    IN (v0.ok /\ v1.ok) =>
-         v1.v * e.pre.supply + ShareSlack(e.pre.supply, e.post.supply) >= v0.v * e.post.supply
+    IN (v0.ok /\ v1.ok) => v1.v * e.pre.supply >= v0.v * e.post.supply
 
 (* C06 (c): the first deposit into an empty pool (no supply, no value) is priced at one USD per
    market token: minted = usd / divisor where usd is the deposited value at min prices after fees
